@@ -120,8 +120,9 @@ where
 
     let mut buffer = vec![0u8; CS::EXPAND_LEN];
     let mut generators = Vec::new();
-    for i in 1..count + 1 {
-        v = [&*v, &i2osp::<8>(i)].concat();
+    for i in 0..count {
+        // generator index i + 1 (1-based); `count + 1` would overflow for count == usize::MAX
+        v = [&*v, &i2osp::<8>(i + 1)].concat();
         CS::Expander::expand_message(&[&v], &[&seed_dst], CS::EXPAND_LEN)
             .unwrap()
             .fill_bytes(&mut buffer);
